@@ -317,6 +317,11 @@ func main() {
 	for i := 0; i < f.N; i++ {
 		genDisp(o, rd)
 	}
+	// readers of the client shard map racing with the application of an update, forced interleaving
+	for _, l := range [][2]uint32{{1, 2}, {2, 3}, {3, 1}, {4, 3}, {2, 2}} {
+		runForcedReaders(o, l[0], l[1])
+	}
+	runStressReaders(o, r.Fork(), f.N/2)
 	// the real client shard manager on the real dispatcher, statuses with leaders absent / present / changing
 	rt := r.Fork()
 	for i := 0; i < f.N/3; i++ {
